@@ -369,3 +369,58 @@ func payloadPreserved(v ssa.Value, parserScope map[*ssa.Function]bool, depth int
 	}
 	return "unrecognised source " + v.String()
 }
+
+// ruleIsNilMeansNull: Message.IsNil is how the derived commands tell a missing key (null bulk)
+// from a key holding the empty string. It must be true exactly for a bulk message whose
+// payload is nil — testing the length instead makes "" look like "no value".
+func ruleIsNilMeansNull(c *Ctx, rid string) {
+	c.rule(rid, "proto.Message.IsNil returns true only under the test payload == nil (never a length test), and false for non-bulk types")
+	fn := c.P.Method(pkgProto, "Message", "IsNil")
+	if !c.anchor(rid, fn, "proto.(*Message).IsNil") {
+		return
+	}
+	c.analysed(fn)
+	problems := []string{}
+	isNilTestOfPayload := func(v ssa.Value) bool {
+		bo, ok := v.(*ssa.BinOp)
+		if !ok || bo.Op != token.EQL {
+			return false
+		}
+		for _, pr := range [][2]ssa.Value{{bo.X, bo.Y}, {bo.Y, bo.X}} {
+			if isNilConst(pr[1]) {
+				if _, f, _, ok := fieldOf(pr[0]); ok && f == "bytes" {
+					return true
+				}
+			}
+		}
+		return false
+	}
+	for _, r := range returnsOf(fn) {
+		if len(r.Results) != 1 {
+			continue
+		}
+		v := retOperand(r, 0)
+		if cb, ok := constBool(v); ok {
+			if !cb {
+				continue
+			}
+			// constant true: must be under the nil fact of the payload
+			okNil := false
+			for _, at := range factsAt(r.Block()) {
+				if at.Kind == "nil" && at.Pos {
+					if _, f, _, ok := fieldOf(at.X); ok && f == "bytes" {
+						okNil = true
+					}
+				}
+			}
+			if !okNil {
+				problems = append(problems, "true is returned on a path that did not test payload == nil")
+			}
+			continue
+		}
+		if !isNilTestOfPayload(v) {
+			problems = append(problems, fmt.Sprintf("the result at %s is not the test payload == nil (an empty payload would count as null)", c.P.instrPos(r)))
+		}
+	}
+	c.check(len(problems) == 0, rid, "Message.IsNil", c.P.pos(fn.Pos()), "null means payload == nil", strings.Join(problems, "; "))
+}
